@@ -302,6 +302,21 @@ def cfg3_units():
                 idx += 1
 
 
+def cfg4_units():
+    """Four-variable family: a unit cycle S -> A -> B -> S, any subset of the nine other unit rules, terminal rules
+    A -> a, B -> b, C -> c and optionally one rule S -> d.X: unit cycles with an exit (1 536 grammars)."""
+    V = ('S', 'A', 'B', 'C')
+    cyc = [('S', ('A',)), ('A', ('B',)), ('B', ('S',))]
+    other = [(x, (y,)) for x in V for y in V if x != y and (x, (y,)) not in cyc]
+    idx = 0
+    for bits in range(2 ** len(other)):
+        units = cyc + [other[i] for i in range(len(other)) if bits >> i & 1]
+        for ex in (None, ('d', 'A'), ('d', 'C')):
+            rules = units + [('A', ('a',)), ('B', ('b',)), ('C', ('c',))] + ([('S', ex)] if ex else [])
+            yield idx, ('cfg', ('A', 'B', 'C', 'S'), ('a', 'b', 'c', 'd'), tuple(sorted(rules, key=lambda r: (r[0] != 'S', r))), 'S')
+            idx += 1
+
+
 def cnf3(maxrules=5):
     """CNF grammars over V={S,A,B}: every rule set of size <= maxrules from the 19-rule menu in which S has a rule."""
     menu = []
